@@ -570,7 +570,7 @@ func runC19(c *ShardCtx) {
 			one(g2, optSet)
 		}
 	}
-	// history independence (all sequences of 2 and 3 builds out of 6 requests in one process, plus EVERY ordered pair of builds of a 4 grammars x 5 flag sets matrix whose members need different parts of the emitted runtime) (shard 0 only)
+	// history independence (all sequences of 2 and 3 builds out of 6 requests in one process, plus EVERY ordered pair of builds of a 5 grammars x 5 flag sets matrix whose members need different parts of the emitted runtime) (shard 0 only)
 	if c.Shard == 0 {
 		historyIndependence(c)
 	}
@@ -674,6 +674,8 @@ func historyIndependence(c *ShardCtx) {
 		"{\npackage p\n}\nS <- 'a' #{ return nil } B\nB <- [\\pL] &{ return true, nil }\n",
 		"{\npackage p\n}\nE \"expr\" <- E '+' T / T\nT <- [0-9]\n",
 		"{\npackage p\n}\nE <- E '+' T #{ return nil } / T\nT <- [\\p{Nd}x] / %{l} //{l} 'q'\n",
+		// (the first text again with a Unicode class: same runtime parameters, one more helper function)
+		"{\npackage p\n}\nS <- 'a' B\nB <- [\\p{Lu}b] { return 1, nil }\n",
 	}
 	flagSets := []hook.Req{{}, {Optimize: true}, {Optimize: true, BasicLatin: true, LeftRec: true}, {LeftRec: true, Nolint: true}, {OptGrammar: true, Optimize: true, LeftRec: true}}
 	var matrix []hook.Req
